@@ -112,11 +112,12 @@ var checks = map[string]*check{
 			"x GRPCServer nil/set x per-version wire protocol assignment x version-list variant (as sent, missing, with junk entries, duplicated): the real Client.Start (host half) joined to the real protocolVersion (plugin half) by the handshake line; " +
 			"pairs with >= 2 common versions are repeated so that map iteration order varies; non-trivial = either side has >= 2 versions",
 		Assumptions: []string{
-			"the harness prints the handshake line from protocolVersion's result exactly as Serve does (that one formatting step is checked against a real Serve process by C16)",
+			"explorer part: the harness prints the handshake line from protocolVersion's result exactly as Serve does; that step is bound to reality by the real-serve part: every pair of version configurations over {1,2} (thorough {1,2,3}) with a real plugin.Serve child and a real Client, end to end",
 			"map iteration order inside go-plugin cannot be controlled; multi-candidate pairs are run 3 (quick) / 6 (thorough) times",
 		},
 		Parts: []part{
 			{Name: "pairs", Kind: "explore", Scen: "version_pair", BatchN: 400, Depths: depths([]int{0}, []int{0}), Budget: budget(5*time.Minute, 30*time.Minute)},
+			{Name: "real-serve", Kind: "enum", Bin: "e3.test", Test: "TestC02Proc"},
 		},
 	},
 	"C19": {
